@@ -189,7 +189,7 @@ class BaseLoadedMessage(LoadedMessageInterface):
         except (IndexError, _NoContent):
             return Writeable.empty()
         if section:
-            if msg.is_rfc822:
+            if msg.is_rfc822 and msg.body.has_nested:
                 msg = msg.body.nested[0]
             else:
                 return Writeable.empty()
@@ -206,7 +206,7 @@ class BaseLoadedMessage(LoadedMessageInterface):
         except (IndexError, _NoContent):
             return Writeable.empty()
         if section:
-            if msg.is_rfc822:
+            if msg.is_rfc822 and msg.body.has_nested:
                 msg = msg.body.nested[0]
             else:
                 return Writeable.empty()
@@ -265,7 +265,8 @@ class BaseLoadedMessage(LoadedMessageInterface):
         content_id = parsed.content_id
         content_desc = parsed.content_description
         content_encoding = parsed.content_transfer_encoding
-        if maintype == 'message' and subtype == 'rfc822':
+        if maintype == 'message' and subtype == 'rfc822' \
+                and msg.body.has_nested:
             sub_msg = msg.body.nested[0]
             sub_env_struct = cls._get_envelope_structure(sub_msg)
             sub_body_struct = cls._get_body_structure(sub_msg)
